@@ -8,7 +8,7 @@
     Definitions only. *)
 From Coq Require Import List ZArith Bool Arith Lia.
 Import ListNotations.
-From TI Require Import model.Iter model.IterSpec model.IterTie model.IterFin.
+From TI Require Import model.Iter model.IterSpec model.IterTie model.IterFin model.IterReent model.IterSession.
 Open Scope Z_scope.
 
 Definition is_frameb (x : out) : bool := match x with OFrame _ => true | _ => false end.
@@ -35,8 +35,22 @@ Record fcase := {
                                    _finalize_render_data_ that raise RuntimeError *)
   f_gc_raised : nat;            (* observed: finalizer exceptions reported as unraisable during
                                    del iterator + gc.collect() (or while a failed constructor's data dies) *)
-  f_caller_raised : bool        (* observed: that final finalize() by the caller raised *)
+  f_caller_raised : bool;       (* observed: that final finalize() by the caller raised *)
+  f_nested : list (nat * bool)  (* observed, per iterator.close() made from inside _render_ (fault kinds 7: the
+                                   ValueError propagates, 8: it is swallowed): what that close() did
+                                   (1 = ValueError "generator already executing", 0 = returned, 2 = other)
+                                   and iterator._closed right after it *)
 }.
+
+(** the instrumented renderable with re-entrant close() calls: kind 7 = call
+    [iterator.close()], let its exception propagate (tagged 7); kind 8 = call it, swallow
+    the exception and render normally *)
+Definition strip8 (faults : list (nat * Z)) : list (nat * Z) := filter (fun kv => negb (snd kv =? 8)) faults.
+Definition t_render2 (t : tcase) : vr_state -> Z -> whence -> size -> dur -> Z -> (rres * vr_state) * bool :=
+  fun st o w sz d a =>
+    (vr_render (t_n t) (t_total t) (strip8 (t_faults t)) (t_ffaults t) (t_stamp t) st o w sz d a,
+     match fault_at (fst st) (t_faults t) with Some k => (k =? 7) || (k =? 8) | None => false end).
+Definition nested_eqb (a b : nat * bool) : bool := Nat.eqb (fst a) (fst b) && Bool.eqb (snd a) (snd b).
 
 (** the finalizer's exception as the drivers report it *)
 Definition fin_err : out := OErr (ERender 90).
@@ -56,9 +70,17 @@ Definition f_owns (t : fcase) : bool := negb (Nat.eqb (f_kind t) 1).
 Section Model.
   Variable t : fcase.
   Let tt := f_t t.
-  Let render := t_render tt.
+  (** [Iter] on what the renderable returns: by proofs/IterReentProofs.rrun_run this IS the
+      machine with the refused nested close() ([IterReent.rnext nested_close]) *)
+  Let render := render1 vr_state (t_render2 tt).
   Let nn := t_n tt.
   Let fr := oracle (f_fin_faults t).
+
+  (** the nested close() calls made during the history: one per [_render_] invocation whose
+      call number is scheduled 7 or 8; each is refused (ValueError) and leaves [_closed] False *)
+  Definition nested_expected (renders : nat) : list (nat * bool) :=
+    map (fun _ => (1%nat, false))
+        (filter (fun kv => ((snd kv =? 7) || (snd kv =? 8)) && Nat.ltb (fst kv) renders) (t_faults tt)).
 
   (** per operation: (fin_calls, finalized, closed) after it *)
   Fixpoint ghost_trace (s : state vr_state) (ops : list op) : list (nat * bool * bool) :=
@@ -98,6 +120,7 @@ Section Model.
     | inl s, None =>
       list_eqb2 fobs_eqb (ftrace vr_state render nn term8030 fr s (t_ops tt)) (t_obs tt)
       && list_eqb rcall_eqb (rev (log (gh (frun vr_state render nn term8030 fr s (t_ops tt))))) (t_log tt)
+      && list_eqb nested_eqb (nested_expected (length (t_log tt))) (f_nested t)
       && Nat.eqb (length (f_fin_ops t)) (length (t_ops tt))
       && Nat.eqb (length (f_fz_ops t)) (length (t_ops tt))
       && Nat.eqb (length (f_closed_ops t)) (length (t_ops tt))
@@ -306,3 +329,167 @@ Definition ocheck10 (t : ocase) : nat :=
 
 Definition obad10 (cases : list ocase) : list (nat * nat) :=
   filter (fun p => negb (Nat.eqb (snd p) 0)) (index_from 0 (map ocheck10 cases)).
+
+(** * Sessions: several iterators (and [_animate_] calls) over ONE render data object *)
+
+Inductive xstep := XStep (o : sop) | XAnimate (c : config).
+
+Record scase := {
+  sc_n : option Z; sc_total : Z; sc_faults : list (nat * Z); sc_ffaults : list (Z * Z); sc_stamp : bool;
+  sc_size : size; sc_dur : dur; sc_frame : Z;      (* the data as [_get_render_data_(iteration=True)] built it *)
+  sc_steps : list xstep;                           (* the session *)
+  sc_obs : list sout;                              (* observed, per step *)
+  sc_fins : list nat;                              (* observed after every step: finalizer calls on the data *)
+  sc_fzs : list bool;                              (* observed after every step: RenderData.finalized *)
+  sc_log : list rcall;                             (* observed _render_ calls with the finalized flag they saw *)
+  sc_fin_end : nat; sc_fz_end : bool;              (* observed after dropping the last iterator + gc.collect() *)
+  sc_fin_owner : nat                               (* observed after the owner's own final finalize() *)
+}.
+
+Definition sout_eqb (a b : sout) : bool :=
+  match a, b with
+  | SOut x, SOut y => out_eqb x y
+  | SMade, SMade | SDone, SDone | SNoIter, SNoIter => true
+  | SRefused e, SRefused e' => err_eqb e e'
+  | _, _ => false
+  end.
+
+Section SModel.
+  Variable t : scase.
+  Let render := vr_render (sc_n t) (sc_total t) (sc_faults t) (sc_ffaults t) (sc_stamp t).
+  Let nn := sc_n t.
+  Notation sstep_ := (sstep vr_state render nn term8030 guard_code).
+
+  (** [_animate_] on the session's data: a non-owning iterator ([draw]'s cache rule), the
+      first frame, [set_padding(NO_PADDING)], the rest; [finally: render_iter.close()] *)
+  Fixpoint sdrive (fuel : nat) (first : bool) (ss : sess vr_state) : sess vr_state * sout :=
+    match fuel with
+    | O => (ss, SNoIter)
+    | S f =>
+      let '(ss1, y) := sstep_ ss (SOp Next) in
+      match y with
+      | SOut (OFrame _) =>
+        sdrive f false (if first then fst (sstep_ ss1 (SOp (SetPadding (PExact 0 0 0 0)))) else ss1)
+      | SOut OStop => (fst (sstep_ ss1 (SOp Close)), SDone)
+      | _ => (fst (sstep_ ss1 (SOp Close)), y)
+      end
+    end.
+
+  Definition xstep_model (ss : sess vr_state) (x : xstep) : sess vr_state * sout :=
+    match x with
+    | XStep o => sstep_ ss o
+    | XAnimate c =>
+      let c' := {| c_loops := c_loops c; c_cache := animate_cache (c_loops c) (c_cache c); c_size := c_size c;
+                   c_dur := c_dur c; c_args := c_args c; c_pad := c_pad c; c_owns := false; c_frame := c_frame c |} in
+      let '(ss1, y) := sstep_ ss (SMake c') in
+      match y with
+      | SMade => let '(ss2, y2) := sdrive 400 true ss1 in (drop_current vr_state ss2, y2)
+      | _ => (ss1, y)
+      end
+    end.
+
+  (** per step: outcome, finalizer calls, finalized flag *)
+  Fixpoint xtrace (ss : sess vr_state) (l : list xstep) : list (sout * nat * bool) * sess vr_state :=
+    match l with
+    | [] => ([], ss)
+    | x :: r => let '(ss', y) := xstep_model ss x in
+                let '(tr, fin) := xtrace ss' r in
+                ((y, fin_calls (data_of vr_state ss'), finalized (data_of vr_state ss')) :: tr, fin)
+    end.
+
+  Definition sobs : list (sout * nat * bool) :=
+    map (fun p => (fst (fst p), snd (fst p), snd p)) (combine (combine (sc_obs t) (sc_fins t)) (sc_fzs t)).
+
+  Definition sobs_eqb (a b : sout * nat * bool) : bool :=
+    sout_eqb (fst (fst a)) (fst (fst b)) && Nat.eqb (snd (fst a)) (snd (fst b)) && Bool.eqb (snd a) (snd b).
+
+  Definition smodel_ok : bool :=
+    let ss0 := fresh_sess vr_state {| fo := sc_frame t; wh := WStart; d_size := sc_size t; d_dur := sc_dur t |} t_rs0 in
+    let '(tr, ss1) := xtrace ss0 (sc_steps t) in
+    let ss2 := drop_current vr_state ss1 in
+    Nat.eqb (length (sc_obs t)) (length (sc_steps t)) && Nat.eqb (length (sc_fins t)) (length (sc_steps t))
+    && Nat.eqb (length (sc_fzs t)) (length (sc_steps t))
+    && list_eqb sobs_eqb tr sobs
+    && list_eqb rcall_eqb (rev (log (data_of vr_state ss2))) (sc_log t)
+    && Nat.eqb (fin_calls (data_of vr_state ss2)) (sc_fin_end t)
+    && Bool.eqb (finalized (data_of vr_state ss2)) (sc_fz_end t)
+    && Nat.eqb (fin_calls (data_finalize (data_of vr_state ss2))) (sc_fin_owner t).
+End SModel.
+
+(** the property on the observations of a session alone.  [fz]: the data has been
+    finalized (by its owner, or by an owning iterator that ended or was dropped);
+    [cur]: the current iterator's (owns, has ended).  Sessions in which the owner
+    finalizes under a live iterator (the caller's misuse) are not judged. *)
+Definition dropped_finalizes (cur : option (bool * bool)) : bool :=
+  match cur with Some (true, false) => true | _ => false end.
+
+(** one step: [None] = misuse; else (fz', cur', is the observed outcome acceptable) *)
+Definition sspec_step (fz : bool) (cur : option (bool * bool)) (x : xstep) (y : sout)
+  : option (bool * option (bool * bool) * bool) :=
+  match x with
+  | XStep (SMake c) =>
+    let fz1 := fz || dropped_finalizes cur in                  (* the previous iterator is dropped first *)
+    match y with
+    | SMade => Some (fz1, Some (c_owns c, false), negb fz1)     (* finalized data must be refused *)
+    | SRefused _ => Some (fz1, None, true)
+    | _ => Some (fz1, None, false)
+    end
+  | XStep (SOp o) =>
+    match cur, y with
+    | None, SNoIter => Some (fz, None, true)
+    | Some (ow, en), SOut x' =>
+      let ok_out :=
+          if en then out_eqb x' (ended_out o)
+          else match o with
+               | Next => is_frameb x' || is_endb x'
+               | Close | Drop => out_eqb x' OOk
+               | _ => negb (is_frameb x') && negb (out_eqb x' OStop) && negb (out_eqb x' (OErr EFinalized))
+               end in
+      let en' := en || ends o x' in
+      Some (fz || (ow && en'), Some (ow, en'), ok_out)
+    | _, _ => Some (fz, cur, false)
+    end
+  | XStep SOwnerFinalize =>
+    match cur with
+    | Some (_, false) => None
+    | _ => Some (true, cur, match y with SDone => true | _ => false end)
+    end
+  | XAnimate c =>
+    let fz1 := fz || dropped_finalizes cur in
+    Some (fz1, None,
+          if fz1 then match y with SRefused _ => true | _ => false end     (* must be refused *)
+          else match y with SDone | SRefused _ | SOut (OErr _) => true | _ => false end)
+  end.
+
+(** verdict 0 = accepted so far, 1 = contradicts the property, 2 = misuse (not judged) *)
+Fixpoint sspec_walk (fz : bool) (cur : option (bool * bool)) (steps : list xstep) (obs : list sout)
+         (fins : list nat) (fzs : list bool) : nat * (bool * option (bool * bool)) :=
+  match steps, obs, fins, fzs with
+  | [], [], [], [] => (0%nat, (fz, cur))
+  | x :: steps', y :: obs', f :: fins', z :: fzs' =>
+    match sspec_step fz cur x y with
+    | None => (2%nat, (fz, cur))
+    | Some (fz', cur', ok) =>
+      if ok && Nat.eqb f (if fz' then 1 else 0) && Bool.eqb z fz'      (* never a second call; never a caller's data *)
+      then sspec_walk fz' cur' steps' obs' fins' fzs'
+      else (1%nat, (fz, cur))
+    end
+  | _, _, _, _ => (1%nat, (fz, cur))
+  end.
+
+Definition sspec_ok (t : scase) : bool :=
+  match sspec_walk false None (sc_steps t) (sc_obs t) (sc_fins t) (sc_fzs t) with
+  | (2%nat, _) => true
+  | (0%nat, (fz, cur)) =>
+    let fz_end := fz || dropped_finalizes cur in
+    forallb (fun rc => negb (rc_finalized rc)) (sc_log t)            (* no _render_ ever saw finalized data *)
+    && Nat.eqb (sc_fin_end t) (if fz_end then 1 else 0) && Bool.eqb (sc_fz_end t) fz_end
+    && Nat.eqb (sc_fin_owner t) 1
+  | _ => false
+  end.
+
+Definition scheck10 (t : scase) : nat :=
+  ((if smodel_ok t then 0 else 1) + (if sspec_ok t then 0 else 2))%nat.
+
+Definition sbad10 (cases : list scase) : list (nat * nat) :=
+  filter (fun p => negb (Nat.eqb (snd p) 0)) (index_from 0 (map scheck10 cases)).
